@@ -238,9 +238,13 @@ class LinkSym:
     def _assume(self, st, c, pol):
         """c is a boolean descriptor; returns False when it contradicts the path"""
         k = c[0]
+        if k == 'const':
+            return c[1] == pol
         if k == 'not':
             return self._assume(st, c[1], not pol)
         if k == 'nonnull':
+            if isinstance(c[1], tuple) and c[1][0] == 'int':
+                return bool(c[1][1]) == pol
             t = self.norm(st, c[1])
             cur = self.is_null(st, t)
             want_null = not pol
@@ -302,10 +306,24 @@ class LinkSym:
         if k == 'and':
             if pol:
                 return self._assume(st, c[1], True) and self._assume(st, c[2], True)
+            x, y = self._truth(st, c[1]), self._truth(st, c[2])
+            if x is True and y is True:
+                return False
+            if x is True:
+                return self._assume(st, c[2], False)     # the other operand is what failed
+            if y is True:
+                return self._assume(st, c[1], False)
             return True
         if k == 'or':
             if not pol:
                 return self._assume(st, c[1], False) and self._assume(st, c[2], False)
+            x, y = self._truth(st, c[1]), self._truth(st, c[2])
+            if x is False and y is False:
+                return False
+            if x is False:
+                return self._assume(st, c[2], True)
+            if y is False:
+                return self._assume(st, c[1], True)
             return True
         return True
 
@@ -347,7 +365,12 @@ class LinkSym:
             if isinstance(v, tuple) and v[0] == 'lvalue':
                 return self._load(st, v[1])
             if isinstance(v, tuple) and v[0] in ('nonnull', 'eq', 'ne', 'not', 'and', 'or', 'bool', 'beq'):
-                return self.opaque('b')
+                # a condition held in a bool local (`const bool append = !a || !b;`): the path already went through its short-circuit
+                # edges, so its value is usually decided by what this path knows; otherwise the local stands for the condition
+                tv = self._truth(st, v)
+                if tv is not None:
+                    return ('int', 1 if tv else 0)
+                return v if v[0] != 'bool' else self.opaque('b')
             return v
         n = self.fn.N(x)
         if n.get('v') == 0 and ('*' in (n.get('t') or '') or n['k'] in ('CXXNullPtrLiteralExpr', 'GNUNullExpr', 'IntegerLiteral')):
@@ -405,10 +428,46 @@ class LinkSym:
             if isinstance(v, tuple) and v[0] in ('nonnull', 'eq', 'ne', 'not', 'and', 'or', 'bool', 'beq'):
                 return v
             if isinstance(v, tuple) and v[0] == 'lvalue':
-                return ('nonnull', self._load(st, v[1]))
+                v = self._load(st, v[1])
+                if isinstance(v, tuple) and v[0] in ('nonnull', 'eq', 'ne', 'not', 'and', 'or', 'beq'):
+                    return v                # a bool local that stands for a condition
+            if isinstance(v, tuple) and v[0] == 'int':
+                return ('const', bool(v[1]))
             if v is not None:
                 return ('nonnull', v)
         return ('bool', self.opq)
+
+    def _truth(self, st, c):
+        """what this path knows about the boolean descriptor c: True / False / None"""
+        k = c[0]
+        if k == 'const':
+            return c[1]
+        if k == 'not':
+            t = self._truth(st, c[1])
+            return None if t is None else not t
+        if k == 'nonnull':
+            if isinstance(c[1], tuple) and c[1][0] == 'int':
+                return bool(c[1][1])
+            n = self.is_null(st, c[1])
+            return None if n is None else not n
+        if k in ('eq', 'ne'):
+            a, b = self.norm(st, c[1]), self.norm(st, c[2])
+            r = None
+            if self.same(st, a, b):
+                r = True
+            else:
+                na, nb = self.is_null(st, a), self.is_null(st, b)
+                if na is not None and nb is not None and na != nb:
+                    r = False
+                elif any((self.same(st, x, a) and self.same(st, y, b)) or (self.same(st, x, b) and self.same(st, y, a)) for x, y in st.neqs):
+                    r = False
+            return None if r is None else (r if k == 'eq' else not r)
+        if k in ('and', 'or'):
+            x, y = self._truth(st, c[1]), self._truth(st, c[2])
+            if k == 'and':
+                return False if (x is False or y is False) else True if (x and y) else None
+            return True if (x is True or y is True) else False if (x is False and y is False) else None
+        return None
 
     def _eval(self, e, st, val):
         fn = self.fn
